@@ -233,6 +233,17 @@ impl Prop for P {
                 stats.add("matchall_exhaustive_qdk_triples", if kl == 4 { nkeys4 } else { nkeys3 });
             }
         }
+        // ---- a second alphabet of characters that differ ONLY in their lead byte within one lead-byte class of the
+        // generic mismatch sequences (C2-DF, E1-EC, F1-F3) or only in one continuation byte: é C3A9 / © C2A9 / Щ D0A9,
+        // ☃ E29883 / ᘃ E19883 / ☂ E29882, U+5F600 F19F9880 / U+9F600 F29F9880, plus 'a'
+        let adv: [char; 9] = ['a', 'é', '©', 'Щ', '☃', 'ᘃ', '☂', '\u{5F600}', '\u{9F600}'];
+        let adv_hex = chars_hex(&adv);
+        for q in all_keys(&adv, 2) {
+            for d in 0..=2 {
+                cases.push(format!("matchall {} {} {} {}", hexs(&q), d, 3, adv_hex));
+                stats.bump("matchall_lead_byte_class_lines");
+            }
+        }
         if tier == Tier::Thorough {
             // |q| = 4 against all keys of <= 3 characters, and a sample of |q| = 4 against keys of <= 4
             for q in all_keys(&ALPHA8, 4).iter().filter(|q| q.chars().count() == 4) {
